@@ -404,6 +404,14 @@ class RExecuteStep(ExecuteStep):
 
 
 class RScheduleStep(ScheduleStep):
+    async def _schedule(self, job: Job) -> None:
+        # gate point "presched" (only when a driver asks for it): the step holds its job BEFORE Scheduler.schedule, i.e. a
+        # rolled-back job stays in status ROLLBACK until the gate opens (the window between _synchronize_workflows and the
+        # re-scheduling of the job by the recovery workflow)
+        if RUN.gates is not None and "presched" in RUN.gate_points:
+            await _pause(job.name, "presched")
+        await super()._schedule(job=job)
+
     async def _set_job_directories(self, connector, locations, job):
         st = RUN
         k = (job.name, "schedule")
